@@ -614,6 +614,16 @@ example : PosCounts [([(0, 5), (1, 2)], 2), ([(1, 2), (2, 2)], 1), ([(2, 2)], 1)
 
 /-! ### gluing selections -/
 
+theorem foldl_inv {α β : Type} (P : β → Prop) (f : β → α → β) : ∀ (l : List α) (b : β), P b →
+    (∀ b x, x ∈ l → P b → P (f b x)) → P (l.foldl f b) := by
+  intro l
+  induction l with
+  | nil => intro b hb _; exact hb
+  | cons x xs ih =>
+    intro b hb hstep
+    simp only [List.foldl_cons]
+    exact ih _ (hstep b x List.mem_cons_self hb) (fun b y hy hP => hstep b y (List.mem_cons_of_mem _ hy) hP)
+
 theorem electedOf_eq_slotCands (l : List Slot) : electedOf l = slotCands l := by
   induction l with
   | nil => rfl
@@ -1029,7 +1039,9 @@ theorem mj_error_cases (tb : TieBreaking) (cfg : Cfg) (votes : SProfile) (n : Na
     (e = .valueError ∧ cfg.unscored = .min ∧ ∃ p ∈ rawScores votes, expand p.2 = []) ∨
     (e = .other "StatisticsError" ∧ ∃ t, correctedScores { cfg with fn := .medianLow } votes = .ok t ∧
       ∃ p ∈ t, expand p.2 = []) ∨
-    (tb = .default ∧ (e = .votingSystemError ∨ e = .other "StatisticsError" ∨ e = .other "Fuel")) := by
+    (tb = .default ∧ (e = .votingSystemError ∨ e = .other "StatisticsError" ∨ e = .other "Fuel") ∧
+      ∃ t tied k, correctedScores { cfg with fn := .medianLow } votes = .ok t ∧ (∀ p ∈ tied, p ∈ t) ∧
+        (tied.map (·.1)).Nodup ∧ 1 ≤ k ∧ k ≤ tied.length ∧ tiebreakDefault (tableFuel tied) tied k = .error e) := by
   unfold majorityJudgment at h
   cases ht : correctedScores { cfg with fn := .medianLow } votes with
   | error e' =>
@@ -1082,6 +1094,16 @@ theorem mj_error_cases (tb : TieBreaking) (cfg : Cfg) (votes : SProfile) (n : Na
         have htlen : tied.length = T.length := by
           have : tied.length = (tied.map (·.1)).length := by simp
           rw [this, htkeys, sortDedup_length_of_nodup hTnd]
+        have htmem : ∀ p ∈ tied, p ∈ t := by
+          intro p hpm
+          obtain ⟨c, _, hc⟩ := List.mem_filterMap.mp hpm
+          cases hg : tableGet t c with
+          | none => rw [hg] at hc; cases hc
+          | some cs =>
+            rw [hg] at hc
+            simp only [Option.map_some, Option.some.injEq] at hc
+            rw [← hc]
+            exact mem_of_tableGet hg
         cases tb with
         | default =>
           simp only at h
@@ -1091,8 +1113,9 @@ theorem mj_error_cases (tb : TieBreaking) (cfg : Cfg) (votes : SProfile) (n : Na
             rw [hb] at h
             injection h with h
             subst h
-            exact Or.inr (Or.inr ⟨rfl, tiebreakDefault_error _ _ _ _ hb hk1 (by omega)
-              (by rw [htkeys]; exact sortDedup_nodup T)⟩)
+            have hknd : (tied.map (·.1)).Nodup := by rw [htkeys]; exact sortDedup_nodup T
+            exact Or.inr (Or.inr ⟨rfl, tiebreakDefault_error _ _ _ _ hb hk1 (by omega) hknd,
+              t, tied, k, rfl, htmem, hknd, hk1, by omega, hb⟩)
         | plus =>
           simp only at h
           cases hb : tiebreakPlus tied k with
@@ -1116,16 +1139,7 @@ theorem mj_error_cases (tb : TieBreaking) (cfg : Cfg) (votes : SProfile) (n : Na
                 unfold aggregateOne at hm
                 obtain ⟨hpe, (⟨hc, _⟩ | ⟨_, he⟩)⟩ := aggFn_error hm
                 · cases hc
-                · refine Or.inr (Or.inl ⟨he, t, rfl, (p.1, p.2), ?_, hpe⟩)
-                  have hpm : p ∈ tied := by rw [htd]; exact List.mem_cons_self
-                  obtain ⟨c, _, hc⟩ := List.mem_filterMap.mp hpm
-                  cases hg : tableGet t c with
-                  | none => rw [hg] at hc; cases hc
-                  | some cs =>
-                    rw [hg] at hc
-                    simp only [Option.map_some, Option.some.injEq] at hc
-                    rw [← hc]
-                    exact mem_of_tableGet hg
+                · exact Or.inr (Or.inl ⟨he, t, rfl, p, htmem p (by rw [htd]; exact List.mem_cons_self), hpe⟩)
 
 /-- **Majority judgment refusals, unconditional part** (`1 ≤ n ≤ #candidates graded`, any settings, any profile): besides
     the declared `VotingSystemError` of the default tie-break, `evaluate` can only raise
@@ -1138,7 +1152,7 @@ theorem mj_refusals_partial (tb : TieBreaking) (cfg : Cfg) (votes : SProfile) (n
     (hlen : n ≤ (scoreCands votes).length) (e : Err) (h : majorityJudgment tb cfg votes n = .error e) :
     e = .votingSystemError ∨ (e = .valueError ∧ cfg.unscored = .min) ∨ e = .other "StatisticsError" ∨
       (tb = .default ∧ e = .other "Fuel") := by
-  rcases mj_error_cases tb cfg votes n h1 hlen e h with ⟨h1, h2, _⟩ | ⟨h1, _⟩ | ⟨h1, (h2 | h2 | h2)⟩
+  rcases mj_error_cases tb cfg votes n h1 hlen e h with ⟨h1, h2, _⟩ | ⟨h1, _⟩ | ⟨h1, (h2 | h2 | h2), _⟩
   · exact Or.inr (Or.inl ⟨h1, h2⟩)
   · exact Or.inr (Or.inr (Or.inl h1))
   · exact Or.inl h2
@@ -1210,15 +1224,16 @@ theorem mjPlus_refusals (cfg : Cfg) (hT : cfg.trunc = .off) (votes : SProfile) (
   obtain ⟨r, hr⟩ := mjPlus_total cfg hT votes hpos n h1 hlen
   rw [hr] at h; cases h
 
-/-- … default tie-break: the declared `VotingSystemError`, or the open finding `StatisticsError`
-    (`mj_refusals_witness`), or the model's fuel bound.
+/-- … default tie-break, any `unscored_value` / `min_count`: the declared `VotingSystemError`, or the open finding
+    `StatisticsError` (`mj_refusals_witness`), or the model's fuel bound (excluded for `unscored_value=None` by
+    `mjDefault_refusals_partial` below).
     Full statement (FALSE): `… → e = .votingSystemError ∨ e = .notImplemented`. -/
-theorem mjDefault_refusals_partial (cfg : Cfg) (hT : cfg.trunc = .off) (votes : SProfile) (hpos : PosCounts votes)
+theorem mjDefault_refusals_partial' (cfg : Cfg) (hT : cfg.trunc = .off) (votes : SProfile) (hpos : PosCounts votes)
     (n : Nat) (h1 : 1 ≤ n) (hlen : n ≤ (scoreCands votes).length) (e : Err)
     (h : majorityJudgment .default cfg votes n = .error e) :
     e = .votingSystemError ∨ e = .other "StatisticsError" ∨ e = .other "Fuel" := by
   obtain ⟨t, ht, hne⟩ := correctedScores_total { cfg with fn := .medianLow } hT votes hpos
-  rcases mj_error_cases .default cfg votes n h1 hlen e h with ⟨_, _, p, hp, hpe⟩ | ⟨_, t', ht', p, hp, hpe⟩ | ⟨_, hc⟩
+  rcases mj_error_cases .default cfg votes n h1 hlen e h with ⟨_, _, p, hp, hpe⟩ | ⟨_, t', ht', p, hp, hpe⟩ | ⟨_, hc, _⟩
   · exact absurd hpe (rawScores_expand_ne_nil hpos p hp)
   · rw [ht] at ht'
     injection ht' with ht'
@@ -1234,6 +1249,330 @@ example : PosCounts [([(1, 1), (2, 2), (3, 1)], 6), ([(3, 2)], 3)] ∧
     majorityJudgment .plus (C12.plainCfg .medianLow) [([(1, 1), (2, 2), (3, 1)], 6), ([(3, 2)], 3)] 2
       = .ok [Slot.cand 2, Slot.cand 3] := by
   refine ⟨by decide +kernel, by decide +kernel, by decide +kernel, by decide +kernel⟩
+
+/-! ### Majority judgment, default tie-break: the model's fuel bound is never hit -/
+
+/-- the aggregate table read back by candidate -/
+theorem aggregate_getD {fn : Agg} {t : ScoreTable} {agg : Votes} (h : aggregate fn t = .ok agg)
+    (hnd : (t.map (·.1)).Nodup) : ∀ p ∈ t, ∃ v, aggregateOne fn p.2 = .ok v ∧ getD agg p.1 0 = v := by
+  intro p hp
+  have hk := aggregate_keys h
+  unfold aggregate at h
+  obtain ⟨y, hy, hfy⟩ := mapM_ok_mem h p hp
+  cases hv : aggregateOne fn p.2 with
+  | error e => rw [hv] at hfy; cases hfy
+  | ok v =>
+    rw [hv] at hfy
+    simp only [bind, Except.bind, pure, Except.pure] at hfy
+    injection hfy with hfy
+    refine ⟨v, rfl, ?_⟩
+    have := getD_of_mem (d := agg) (by rw [hk]; exact hnd) hy
+    rw [← hfy] at this
+    exact this
+
+theorem wTotal_cons (q : Rat × Int) (cs : CScores) : wTotal (q :: cs) = q.2.toNat + wTotal cs := by
+  simp [wTotal]
+
+/-- removing `cc ≥ 1` copies of a grade that is present lowers the number of grades -/
+theorem wTotal_setCount_lt {cs : CScores} (hnd : (ckeys cs).Nodup) {m : Rat} (hm : ∃ q ∈ cs, q.1 = m ∧ 0 < q.2)
+    {cc : Int} (hcc : 1 ≤ cc) : wTotal (setCount cs m (getCount cs m - cc)) + 1 ≤ wTotal cs := by
+  induction cs with
+  | nil => obtain ⟨q, hq, _⟩ := hm; cases hq
+  | cons x rest ih =>
+    obtain ⟨k, v⟩ := x
+    have hnd' := List.nodup_cons.mp hnd
+    rw [getCount_cons]
+    unfold setCount
+    by_cases hk : k = m
+    · simp only [hk, if_true]
+      rw [wTotal_cons, wTotal_cons]
+      simp only
+      have hv : 0 < v := by
+        obtain ⟨q, hq, hq1, hq2⟩ := hm
+        rcases List.mem_cons.mp hq with rfl | hq
+        · exact hq2
+        · exfalso
+          apply hnd'.1
+          rw [hk, ← hq1]
+          exact List.mem_map.mpr ⟨q, hq, rfl⟩
+      omega
+    · simp only [hk, if_false]
+      rw [wTotal_cons, wTotal_cons]
+      have hm' : ∃ q ∈ rest, q.1 = m ∧ 0 < q.2 := by
+        obtain ⟨q, hq, hq1, hq2⟩ := hm
+        rcases List.mem_cons.mp hq with rfl | hq
+        · exact absurd hq1 hk
+        · exact ⟨q, hq, hq1, hq2⟩
+      have := ih hnd'.2 hm'
+      omega
+
+theorem ceilAbs_nonneg (x : Rat) : 0 ≤ ceilAbs x := by
+  unfold ceilAbs Py.pyCeil
+  have hx : (0 : Rat) ≤ (if x < 0 then -x else x) := by
+    split
+    · linarith
+    · linarith
+  have : (-1 : Int) < (if x < 0 then -x else x).ceil := Rat.lt_ceil_iff.mpr (by push_cast; linarith)
+  omega
+
+/-- the step of `_closest_median_change` never goes below 0 and, over at least one candidate, is a number -/
+theorem closestChange_some {scores : ScoreTable} (hne : scores ≠ []) (medians : Votes) :
+    ∃ c, closestChange scores medians = some c ∧ 0 ≤ c := by
+  unfold closestChange
+  cases scores with
+  | nil => exact absurd rfl hne
+  | cons p ps =>
+    simp only [List.foldl_cons]
+    apply foldl_inv (fun acc : Option Int => ∃ c, acc = some c ∧ 0 ≤ c)
+    · refine ⟨_, rfl, ?_⟩
+      split
+      · exact ceilAbs_nonneg _
+      · exact ceilAbs_nonneg _
+    · intro acc q _ hacc
+      obtain ⟨c, rfl, hc⟩ := hacc
+      simp only
+      split <;> split <;> first | exact ⟨_, rfl, ceilAbs_nonneg _⟩ | exact ⟨c, rfl, hc⟩
+
+theorem sum_succ_le {α : Type} (f g : α → Nat) : ∀ (l : List α), (∀ x ∈ l, f x + 1 ≤ g x) →
+    (l.map f).sum + l.length ≤ (l.map g).sum := by
+  intro l
+  induction l with
+  | nil => intro _; simp
+  | cons x xs ih =>
+    intro h
+    have h1 := h x List.mem_cons_self
+    have h2 := ih (fun y hy => h y (List.mem_cons_of_mem _ hy))
+    simp only [List.map_cons, List.sum_cons, List.length_cons]
+    omega
+
+theorem sum_filter_le {α : Type} (f : α → Nat) (P : α → Bool) : ∀ (l : List α),
+    ((l.filter P).map f).sum ≤ (l.map f).sum := by
+  intro l
+  induction l with
+  | nil => simp
+  | cons x xs ih =>
+    by_cases hx : P x = true
+    · simp only [List.filter_cons, hx, if_true, List.map_cons, List.sum_cons]; omega
+    · simp only [List.filter_cons, hx, List.map_cons, List.sum_cons]
+      simp only [Bool.false_eq_true, if_false]
+      omega
+
+/-- the termination measure of the default tie-break: grades held plus candidates -/
+def tbMeasure (scores : ScoreTable) : Nat := (scores.map (fun p => wTotal p.2)).sum + scores.length
+
+theorem tbMeasure_map_lt (scores : ScoreTable) (g : Cand × CScores → CScores)
+    (h : ∀ p ∈ scores, wTotal (g p) + 1 ≤ wTotal p.2) (hne : scores ≠ []) :
+    tbMeasure (scores.map (fun p => (p.1, g p))) < tbMeasure scores := by
+  unfold tbMeasure
+  rw [List.map_map, List.length_map]
+  have := sum_succ_le (fun p : Cand × CScores => wTotal (g p)) (fun p : Cand × CScores => wTotal p.2) scores h
+  have hl : 0 < scores.length := List.length_pos_iff.mpr hne
+  simp only [Function.comp_def]
+  omega
+
+/-- **the default tie-break never runs out of fuel** when given more than `tbMeasure` -/
+theorem tiebreakDefault_no_fuel : ∀ (fuel : Nat) (scores : ScoreTable) (n : Nat),
+    tbMeasure scores < fuel → 1 ≤ n → n ≤ scores.length → (scores.map (·.1)).Nodup →
+    (∀ p ∈ scores, (ckeys p.2).Nodup) → tiebreakDefault fuel scores n ≠ .error (.other "Fuel") := by
+  intro fuel
+  induction fuel with
+  | zero => intro scores n hμ; omega
+  | succ fuel ih =>
+    intro scores n hμ h1 hlen hnd hck h
+    unfold tiebreakDefault at h
+    cases scores with
+    | nil => simp at hlen; omega
+    | cons p0 ps =>
+      simp only at h
+      split at h
+      · cases h
+      · cases hm : aggregate .medianLow (p0 :: ps) with
+        | error e' =>
+          rw [hm] at h
+          injection h with h
+          subst h
+          obtain ⟨_, _, _, (⟨hc, _⟩ | ⟨_, he⟩)⟩ := aggregate_error hm
+          · cases hc
+          · injection he with he
+            exact absurd he (by decide)
+        | ok medians =>
+          rw [hm] at h
+          have hk := aggregate_keys hm
+          have hbest := getNBest_shape_of_keys medians _ hk hnd n h1 (by simpa using hlen)
+          simp only [bind, Except.bind] at h
+          split at h
+          · cases h
+          · rename_i i hi
+            obtain ⟨hj, htake, hwl⟩ := firstTie_take hi
+            rw [hbest.length] at hj
+            cases hrec : tiebreakDefault fuel
+                (List.filter (fun p => !(slotCands (List.take (i + 1) (getNBest medians n))).contains p.1) (p0 :: ps))
+                (n - (i + 1)) with
+            | ok rest => rw [hrec] at h; cases h
+            | error e' =>
+              rw [hrec] at h
+              injection h with h
+              subst h
+              set wc := slotCands (List.take (i + 1) (getNBest medians n)) with hwc
+              have hwc_nd : wc.Nodup := by
+                have hn := hbest.nodup
+                rw [← List.take_append_drop (i + 1) (getNBest medians n), electedOf_append, electedOf_eq_slotCands] at hn
+                exact (List.nodup_append.mp hn).1
+              have hkeys : (List.filter (fun p => !(wc.contains p.1)) (p0 :: ps)).map (·.1)
+                  = ((p0 :: ps).map (·.1)).filter (fun c => !(wc.contains c)) := by
+                rw [List.filter_map]; rfl
+              have hlen' := filter_keys_length (K := (p0 :: ps).map (·.1)) (w := wc) hnd
+              -- a winner leaves the table
+              have hdrop : (List.filter (fun p => !(wc.contains p.1)) (p0 :: ps)).length < (p0 :: ps).length := by
+                apply List.length_filter_lt_length_iff_exists.mpr
+                have hpos : 0 < wc.length := by rw [hwl]; omega
+                obtain ⟨c, hc⟩ := List.exists_mem_of_length_pos hpos
+                have hcm : Slot.cand c ∈ getNBest medians n := by
+                  have : Slot.cand c ∈ List.take (i + 1) (getNBest medians n) := by
+                    rw [htake]; exact List.mem_map.mpr ⟨c, hc, rfl⟩
+                  exact List.mem_of_mem_take this
+                obtain ⟨p, hp, hpc⟩ := List.mem_map.mp (hbest.cand_ok c hcm)
+                refine ⟨p, hp, ?_⟩
+                simp only [Bool.not_eq_true, Bool.not_eq_false', List.contains_eq_mem, decide_eq_true_eq]
+                rw [hpc]; exact hc
+              have hsum := sum_filter_le (fun p : Cand × CScores => wTotal p.2) (fun p => !(wc.contains p.1)) (p0 :: ps)
+              refine ih _ _ ?_ (by omega) (by
+                have : (List.filter (fun p => !(wc.contains p.1)) (p0 :: ps)).length
+                    = ((List.filter (fun p => !(wc.contains p.1)) (p0 :: ps)).map (·.1)).length := by simp
+                rw [this, hkeys]
+                simp only [List.length_map] at hlen' hlen ⊢
+                omega) (by rw [hkeys]; exact hnd.filter _)
+                (fun p hp => hck p (List.mem_filter.mp hp).1) hrec
+              unfold tbMeasure at hμ ⊢
+              omega
+          · -- the whole selection is one tie: remove `cc ≥ 1` median grades from everybody
+            obtain ⟨c, hcc, hc0⟩ := closestChange_some (scores := p0 :: ps) (by simp) medians
+            rw [hcc] at h
+            have hgd := aggregate_getD hm hnd
+            refine ih _ _ ?_ h1 (by simpa using hlen) (by simpa [List.map_map, Function.comp_def] using hnd) ?_ h
+            · have := tbMeasure_map_lt (p0 :: ps)
+                (fun p : Cand × CScores => setCount p.2 (getD medians p.1 0)
+                  (getCount p.2 (getD medians p.1 0) - (match (some c : Option Int) with
+                    | some 0 => 1
+                    | some c => c
+                    | none => 0))) (by
+                  intro p hp
+                  obtain ⟨v, hv, hgv⟩ := hgd p hp
+                  rw [hgv]
+                  apply wTotal_setCount_lt (hck p hp) ((C12.mj_median_is_lower_median p.2 v).mp hv).1
+                  split
+                  · omega
+                  · rename_i c' hc' heq
+                    injection heq with heq
+                    subst heq
+                    have : c ≠ 0 := fun e => hc' (by rw [e])
+                    omega
+                  · rename_i heq; cases heq) (by simp)
+              exact lt_of_lt_of_le this (by omega)
+            · intro p hp
+              obtain ⟨q, _, rfl⟩ := List.mem_map.mp hp
+              exact ckeys_setCount_nodup (hck q ‹_›) _ _
+
+theorem mapM_ok_mem_rev {α β : Type} {f : α → Except Err β} : ∀ {l : List α} {r : List β}, l.mapM f = .ok r →
+    ∀ y ∈ r, ∃ x ∈ l, f x = .ok y := by
+  intro l
+  induction l with
+  | nil => intro r h y hy; simp only [List.mapM_nil] at h; injection h with h; subst h; cases hy
+  | cons a as ih =>
+    intro r h y hy
+    rw [List.mapM_cons] at h
+    cases ha : f a with
+    | error e => rw [ha] at h; cases h
+    | ok b =>
+      rw [ha] at h
+      cases hr : as.mapM f with
+      | error e => rw [hr] at h; cases h
+      | ok bs =>
+        rw [hr] at h
+        injection h with h
+        subst h
+        rcases List.mem_cons.mp hy with rfl | hy
+        · exact ⟨a, List.mem_cons_self, ha⟩
+        · obtain ⟨x, hx, hfx⟩ := ih hr y hy
+          exact ⟨x, List.mem_cons_of_mem _ hx, hfx⟩
+
+theorem wTotal_eq_totalCount {cs : CScores} (h : ∀ q ∈ cs, 0 ≤ q.2) : ((wTotal cs : Nat) : Int) = totalCount cs := by
+  induction cs with
+  | nil => simp [wTotal, totalCount]
+  | cons q rest ih =>
+    have h0 := h q List.mem_cons_self
+    have := ih (fun x hx => h x (List.mem_cons_of_mem _ hx))
+    rw [wTotal_cons]
+    unfold totalCount at this ⊢
+    simp only [List.map_cons, List.sum_cons]
+    omega
+
+/-- without unscored value and truncation, a corrected grade dict of a real profile has distinct grades and no negative
+    count -/
+theorem correctOne_plain_good {cfg : Cfg} (hT : cfg.trunc = .off) (hU : cfg.unscored = .none) {cs : CScores}
+    (h : GoodCS cs) {nVotes : Int} {cs' : CScores} (hc : correctOne cfg cs nVotes = .ok cs') :
+    (ckeys cs').Nodup ∧ ∀ q ∈ cs', 0 ≤ q.2 := by
+  unfold correctOne at hc
+  simp only [bind, Except.bind, pure, Except.pure, hT, hU] at hc
+  have htc := totalCount_pos h
+  split at hc
+  · rename_i hlt
+    injection hc with hc
+    subst hc
+    refine ⟨by simp [ckeys], ?_⟩
+    intro q hq
+    simp only [List.mem_singleton] at hq
+    rw [hq]
+    simp only
+    omega
+  · injection hc with hc
+    subst hc
+    exact ⟨h.1, fun q hq => le_of_lt (h.2.1 q hq)⟩
+
+/-- **Majority judgment refusals (partial), default tie-break** on real profiles (positive counts, no truncation, no
+    unscored value — the default settings; `1 ≤ n ≤ #candidates graded`): the declared `VotingSystemError`, or the open
+    finding `StatisticsError` (`mj_refusals_witness`) — nothing else.
+    Full statement (FALSE): `… → e = .votingSystemError ∨ e = .notImplemented`. -/
+theorem mjDefault_refusals_partial (cfg : Cfg) (hT : cfg.trunc = .off) (hU : cfg.unscored = .none) (votes : SProfile)
+    (hpos : PosCounts votes) (n : Nat) (h1 : 1 ≤ n) (hlen : n ≤ (scoreCands votes).length) (e : Err)
+    (h : majorityJudgment .default cfg votes n = .error e) :
+    e = .votingSystemError ∨ e = .other "StatisticsError" := by
+  obtain ⟨t0, ht0, hne⟩ := correctedScores_total { cfg with fn := .medianLow } hT votes hpos
+  rcases mj_error_cases .default cfg votes n h1 hlen e h with ⟨_, _, p, hp, hpe⟩ | ⟨_, t', ht', p, hp, hpe⟩ |
+      ⟨_, hc, t, tied, k, ht, htmem, hknd, hk1, hkl, hb⟩
+  · exact absurd hpe (rawScores_expand_ne_nil hpos p hp)
+  · rw [ht0] at ht'
+    injection ht' with ht'
+    subst ht'
+    exact absurd hpe (hne p hp)
+  · rcases hc with hc | hc | hc
+    · exact Or.inl hc
+    · exact Or.inr hc
+    · exfalso
+      subst hc
+      -- every corrected dict is a plain one
+      have hgoodt : ∀ p ∈ t, (ckeys p.2).Nodup ∧ ∀ q ∈ p.2, 0 ≤ q.2 := by
+        intro p hp
+        unfold correctedScores at ht
+        obtain ⟨x, hx, hfx⟩ := mapM_ok_mem_rev ht p hp
+        cases hcx : correctOne { cfg with fn := .medianLow } x.2 (totalVotes votes) with
+        | error e' => rw [hcx] at hfx; cases hfx
+        | ok cs' =>
+          rw [hcx] at hfx
+          simp only [bind, Except.bind, pure, Except.pure] at hfx
+          injection hfx with hfx
+          rw [← hfx]
+          exact correctOne_plain_good (cfg := { cfg with fn := .medianLow }) hT hU (goodT_rawScores hpos x hx) hcx
+      refine tiebreakDefault_no_fuel (tableFuel tied) tied k ?_ hk1 hkl hknd
+        (fun p hp => (hgoodt p (htmem p hp)).1) hb
+      unfold tbMeasure tableFuel
+      have : tied.map (fun p => wTotal p.2) = tied.map (fun p => (totalCount p.2).toNat) := by
+        apply List.map_congr_left
+        intro p hp
+        have := wTotal_eq_totalCount (hgoodt p (htmem p hp)).2
+        omega
+      rw [this]
+      omega
 
 /-! ### STAR -/
 
@@ -1316,16 +1655,6 @@ theorem starMembers_sub (agg : Votes) (m : Nat) : ∀ x ∈ starMembers (getNBes
   | tie T => exact this x hxs
 
 /-! #### the Schulze score table names exactly the candidates of the pairwise table -/
-
-theorem foldl_inv {α β : Type} (P : β → Prop) (f : β → α → β) : ∀ (l : List α) (b : β), P b →
-    (∀ b x, x ∈ l → P b → P (f b x)) → P (l.foldl f b) := by
-  intro l
-  induction l with
-  | nil => intro b hb _; exact hb
-  | cons x xs ih =>
-    intro b hb hstep
-    simp only [List.foldl_cons]
-    exact ih _ (hstep b x List.mem_cons_self hb) (fun b y hy hP => hstep b y (List.mem_cons_of_mem _ hy) hP)
 
 /-- every pair of the table is among the candidates `A` -/
 def PairsIn (A : List Cand) (d : PairCounts) : Prop := ∀ q ∈ d, q.1.1 ∈ A ∧ q.1.2 ∈ A
@@ -1658,5 +1987,510 @@ theorem subtractVotes_error {cv : WProfile} {c : Cand} {g : Nat} {q : Rat} {e : 
     rw [hf] at h
     simp only [bind, Except.bind, pure, Except.pure] at h
     split at h <;> cases h
+
+/-! ### Allocated score: what the loop maintains -/
+
+/-- the score table of a round names only candidates graded on a remaining ballot, each once -/
+theorem sumScores_keys (cv : WProfile) :
+    (keys (sumScores cv)).Nodup ∧ ∀ c ∈ keys (sumScores cv), ∃ bw ∈ cv, ∃ p ∈ bw.1, p.1 = c := by
+  unfold sumScores
+  apply foldl_inv (fun d : Votes => (keys d).Nodup ∧ ∀ c ∈ keys d, ∃ bw ∈ cv, ∃ p ∈ bw.1, p.1 = c)
+  · exact ⟨by simp [keys], by intro c hc; simp [keys] at hc⟩
+  · intro d bw hbw hd
+    apply foldl_inv (fun d : Votes => (keys d).Nodup ∧ ∀ c ∈ keys d, ∃ bw ∈ cv, ∃ p ∈ bw.1, p.1 = c) _ _ _ hd
+    intro d p hp hd
+    refine ⟨nodup_keys_addVote hd.1 _ _, ?_⟩
+    intro c hc
+    rcases mem_keys_addVote.mp hc with h | rfl
+    · exact hd.2 c h
+    · exact ⟨bw, hbw, p, hp, rfl⟩
+
+theorem fractionOut_ballots : ∀ (fuel : Nat) (cv : WProfile) (c : Cand) (q : Rat) (cv' : WProfile),
+    fractionOut fuel cv c q = .ok cv' → ∀ bw' ∈ cv', ∃ bw ∈ cv, bw'.1 = bw.1 := by
+  intro fuel
+  induction fuel with
+  | zero => intro cv c q cv' h; simp [fractionOut] at h
+  | succ fuel ih =>
+    intro cv c q cv' h
+    unfold fractionOut at h
+    split at h
+    · cases hb : findBestVotes cv c with
+      | error e => rw [hb] at h; cases h
+      | ok best =>
+        rw [hb] at h
+        simp only [bind, Except.bind, pure, Except.pure] at h
+        split at h
+        · injection h with h; subst h; exact fun bw hbw => ⟨bw, hbw, rfl⟩
+        · split at h
+          · injection h with h
+            subst h
+            intro bw' hbw'
+            obtain ⟨bw, hbw, rfl⟩ := List.mem_map.mp hbw'
+            refine ⟨bw, hbw, ?_⟩
+            split <;> rfl
+          · intro bw' hbw'
+            obtain ⟨bw, hbw, he⟩ := ih _ _ _ _ h bw' hbw'
+            exact ⟨bw, (List.mem_filter.mp hbw).1, he⟩
+    · injection h with h; subst h; exact fun bw hbw => ⟨bw, hbw, rfl⟩
+
+theorem mem_addWeight {d : WProfile} {b : SBallot} {w : Rat} {x : SBallot × Rat} (h : x ∈ addWeight d b w) :
+    x.1 = b ∨ x ∈ d := by
+  induction d with
+  | nil => simp only [addWeight, List.mem_singleton] at h; left; rw [h]
+  | cons y rest ih =>
+    obtain ⟨k, v⟩ := y
+    unfold addWeight at h
+    by_cases hk : k = b
+    · rw [if_pos hk] at h
+      rcases List.mem_cons.mp h with h | h
+      · left; rw [h]; exact hk
+      · right; exact List.mem_cons_of_mem _ h
+    · rw [if_neg hk] at h
+      rcases List.mem_cons.mp h with h | h
+      · right; rw [h]; exact List.mem_cons_self
+      · rcases ih h with h | h
+        · exact Or.inl h
+        · exact Or.inr (List.mem_cons_of_mem _ h)
+
+/-- after `_subtract_votes` every grade on a remaining ballot was on a ballot before, and the candidate who has just
+    reached its cap (`gained = 1`) is graded nowhere any more -/
+theorem subtractVotes_ballots {cv : WProfile} {c : Cand} {g : Nat} {q : Rat} {cv' : WProfile}
+    (h : subtractVotes cv c g q = .ok cv') :
+    ∀ bw' ∈ cv', ∀ p ∈ bw'.1, (∃ bw ∈ cv, p ∈ bw.1) ∧ (g = 1 → p.1 ≠ c) := by
+  unfold subtractVotes at h
+  cases hf : fractionOut (cv.length + 1) cv c q with
+  | error e => rw [hf] at h; cases h
+  | ok cv1 =>
+    rw [hf] at h
+    simp only [bind, Except.bind, pure, Except.pure] at h
+    have hsub := fractionOut_ballots _ _ _ _ _ hf
+    split at h
+    · rename_i hg
+      injection h with h
+      subst h
+      have key : ∀ x ∈ cv1.foldl (fun d bw => addWeight d (bw.1.filter (fun p => p.1 ≠ c)) bw.2) [],
+          ∃ bw ∈ cv1, x.1 = bw.1.filter (fun p => p.1 ≠ c) := by
+        apply foldl_inv (fun d : WProfile => ∀ x ∈ d, ∃ bw ∈ cv1, x.1 = bw.1.filter (fun p => p.1 ≠ c))
+        · intro x hx; cases hx
+        · intro d bw hbw hd x hx
+          rcases mem_addWeight hx with hx | hx
+          · exact ⟨bw, hbw, hx⟩
+          · exact hd x hx
+      intro bw' hbw' p hp
+      obtain ⟨bw1, hbw1, he⟩ := key bw' hbw'
+      rw [he] at hp
+      obtain ⟨hp1, hp2⟩ := List.mem_filter.mp hp
+      obtain ⟨bw, hbw, he'⟩ := hsub bw1 hbw1
+      refine ⟨⟨bw, hbw, he' ▸ hp1⟩, fun _ => by simpa using hp2⟩
+    · rename_i hg
+      injection h with h
+      subst h
+      intro bw' hbw' p hp
+      obtain ⟨bw, hbw, he'⟩ := hsub bw' hbw'
+      exact ⟨⟨bw, hbw, he' ▸ hp⟩, fun h1 => absurd h1 hg⟩
+
+theorem bump_absent {el : Elected} {k : Key} (h : k ∉ el.map (·.1)) (n : Nat) : bump el k n = el ++ [(k, 0 + n)] := by
+  induction el with
+  | nil => rfl
+  | cons x rest ih =>
+    obtain ⟨k', v⟩ := x
+    have hk : ¬ k' = k := fun e => h (by simp [e])
+    unfold bump
+    rw [if_neg hk, ih (fun hm => h (List.mem_cons_of_mem _ hm))]
+    rfl
+
+theorem electedOf_append_absent {el : Elected} {c : Cand} (h : Key.cand c ∉ el.map (·.1)) (m : Nat) :
+    Score.electedOf (el ++ [(Key.cand c, m)]) c = m := by
+  unfold Score.electedOf
+  induction el with
+  | nil => simp
+  | cons x rest ih =>
+    obtain ⟨k', v⟩ := x
+    have hk : ¬ k' = Key.cand c := fun e => h (by simp [e])
+    simp only [List.cons_append, List.find?_cons, hk, decide_false]
+    exact ih (fun hm => h (List.mem_cons_of_mem _ hm))
+
+/-- invariant of the allocation loop (selector: everybody capped at one seat) -/
+structure AInv (S : List Cand) (n : Nat) (cv : WProfile) (el : Elected) (rem : Nat) : Prop where
+  nodup : (el.map (·.1)).Nodup
+  cands : ∀ km ∈ el, ∃ c, km = (Key.cand c, 1) ∧ c ∈ S
+  total : el.length + rem = n
+  ballots : ∀ bw ∈ cv, ∀ p ∈ bw.1, p.1 ∈ S ∧ Key.cand p.1 ∉ el.map (·.1)
+
+theorem elect_step {S : List Cand} {n : Nat} {cv : WProfile} {el : Elected} {rem : Nat} (h : AInv S n cv el rem)
+    (hrem : 1 ≤ rem) {c : Cand} (hcS : c ∈ S) (hce : Key.cand c ∉ el.map (·.1)) {q : Rat} {cv1 : WProfile}
+    (hs : subtractVotes cv c (Score.electedOf (bump el (Key.cand c) 1) c) q = .ok cv1) :
+    AInv S n cv1 (bump el (Key.cand c) 1) (rem - 1) ∧ bump el (Key.cand c) 1 = el ++ [(Key.cand c, 1)] := by
+  have hb : bump el (Key.cand c) 1 = el ++ [(Key.cand c, 1)] := bump_absent hce 1
+  rw [hb] at hs ⊢
+  rw [electedOf_append_absent hce] at hs
+  have hsub := subtractVotes_ballots hs
+  refine ⟨⟨?_, ?_, ?_, ?_⟩, rfl⟩
+  · rw [List.map_append]
+    refine List.nodup_append.mpr ⟨h.nodup, by simp, ?_⟩
+    intro a ha b hb' hab
+    simp only [List.map_cons, List.map_nil, List.mem_singleton] at hb'
+    subst hab; subst hb'
+    exact hce ha
+  · intro km hkm
+    rcases List.mem_append.mp hkm with hkm | hkm
+    · exact h.cands km hkm
+    · simp only [List.mem_singleton] at hkm
+      exact ⟨c, hkm, hcS⟩
+  · rw [List.length_append, List.length_singleton]
+    have := h.total
+    omega
+  · intro bw' hbw' p hp
+    obtain ⟨⟨bw, hbw, hpb⟩, hne⟩ := hsub bw' hbw' p hp
+    obtain ⟨h1, h2⟩ := h.ballots bw hbw p hpb
+    refine ⟨h1, ?_⟩
+    rw [List.map_append]
+    intro hm
+    rcases List.mem_append.mp hm with hm | hm
+    · exact h2 hm
+    · simp only [List.map_cons, List.map_nil, List.mem_singleton] at hm
+      injection hm with hm
+      exact hne rfl hm
+
+/-- electing all members of a leading tie one after the other -/
+theorem elect_members {S : List Cand} {n : Nat} {q : Rat} : ∀ (ms : List Cand) (cv : WProfile) (el : Elected) (rem : Nat),
+    AInv S n cv el rem → ms.length ≤ rem → ms.Nodup → (∀ c ∈ ms, c ∈ S ∧ Key.cand c ∉ el.map (·.1)) →
+    ∀ r, ms.foldlM (fun (st : WProfile × Elected) c => do
+            let e1 := bump st.2 (Key.cand c) 1
+            let cv1 ← subtractVotes st.1 c (Score.electedOf e1 c) q
+            pure (cv1, e1)) (cv, el) = Except.ok r →
+      AInv S n r.1 r.2 (rem - ms.length) := by
+  intro ms
+  induction ms with
+  | nil =>
+    intro cv el rem h _ _ _ r hr
+    simp only [List.foldlM_nil, pure, Except.pure] at hr
+    injection hr with hr
+    subst hr
+    simpa using h
+  | cons c rest ih =>
+    intro cv el rem h hlen hnd hms r hr
+    rw [List.foldlM_cons] at hr
+    simp only [bind, Except.bind] at hr
+    cases hs : subtractVotes cv c (Score.electedOf (bump el (Key.cand c) 1) c) q with
+    | error e => rw [hs] at hr; cases hr
+    | ok cv1 =>
+      rw [hs] at hr
+      simp only [pure, Except.pure] at hr
+      simp only [List.length_cons] at hlen
+      obtain ⟨hc1, hc2⟩ := hms c List.mem_cons_self
+      obtain ⟨hinv, hb⟩ := elect_step h (by omega) hc1 hc2 hs
+      have hnd' := List.nodup_cons.mp hnd
+      have := ih cv1 (bump el (Key.cand c) 1) (rem - 1) hinv (by omega) hnd'.2 (by
+        intro d hd
+        obtain ⟨hd1, hd2⟩ := hms d (List.mem_cons_of_mem _ hd)
+        refine ⟨hd1, ?_⟩
+        rw [hb, List.map_append]
+        intro hm
+        rcases List.mem_append.mp hm with hm | hm
+        · exact hd2 hm
+        · simp only [List.map_cons, List.map_nil, List.mem_singleton] at hm
+          injection hm with hm
+          exact hnd'.1 (hm ▸ hd)) r hr
+      have e : rem - 1 - rest.length = rem - (rest.length + 1) := by omega
+      rw [List.length_cons, ← e]
+      exact this
+
+/-- what the allocation loop returns: everybody elected once, or — when a tie of more members than seats remain leads a
+    round — the elected so far followed by that tie holding all remaining seats -/
+def AllocOut (S : List Cand) (n : Nat) (e : Elected) : Prop :=
+  ((e.map (·.1)).Nodup ∧ (∀ km ∈ e, ∃ c, km = (Key.cand c, 1) ∧ c ∈ S) ∧ e.length = n) ∨
+  (∃ el T rem, e = el ++ [(Key.tie T, rem)] ∧ (el.map (·.1)).Nodup ∧ (∀ km ∈ el, ∃ c, km = (Key.cand c, 1) ∧ c ∈ S) ∧
+    el.length + rem = n ∧ 1 ≤ rem ∧ rem < T.length ∧ ∀ c ∈ T, c ∈ S ∧ Key.cand c ∉ el.map (·.1))
+
+theorem allocLoop_out {S : List Cand} {n : Nat} (q : Rat) : ∀ (fuel : Nat) (cv : WProfile) (el : Elected) (rem : Nat)
+    (e : Elected), allocLoop q fuel cv el rem = .ok e → AInv S n cv el rem → AllocOut S n e := by
+  intro fuel
+  induction fuel with
+  | zero =>
+    intro cv el rem e h hinv
+    simp only [allocLoop] at h
+    split at h
+    · rename_i h0
+      injection h with h
+      subst h
+      exact Or.inl ⟨hinv.nodup, hinv.cands, by have := hinv.total; omega⟩
+    · cases h
+  | succ fuel ih =>
+    intro cv el rem e h hinv
+    unfold allocLoop at h
+    split at h
+    · rename_i h0
+      injection h with h
+      subst h
+      exact Or.inl ⟨hinv.nodup, hinv.cands, by have := hinv.total; omega⟩
+    · rename_i hrem
+      obtain ⟨_, hkeys⟩ := sumScores_keys cv
+      have hnames := getNBest_slotIn (sumScores cv) 1
+      have hin : ∀ c ∈ keys (sumScores cv), c ∈ S ∧ Key.cand c ∉ el.map (·.1) := by
+        intro c hc
+        obtain ⟨bw, hbw, p, hp, rfl⟩ := hkeys c hc
+        exact hinv.ballots bw hbw p hp
+      split at h
+      · cases h
+      · rename_i best rest hg
+        have hbest : best ∈ keys (sumScores cv) := hnames (Slot.cand best) (by rw [hg]; exact List.mem_cons_self)
+        simp only [bind, Except.bind] at h
+        cases hs : subtractVotes cv best (Score.electedOf (bump el (Key.cand best) 1) best) q with
+        | error e' => rw [hs] at h; cases h
+        | ok cv1 =>
+          rw [hs] at h
+          obtain ⟨h1, h2⟩ := hin best hbest
+          exact ih _ _ _ _ h (elect_step hinv (by omega) h1 h2 hs).1
+      · rename_i T rest hg
+        have hT : ∀ c ∈ T, c ∈ keys (sumScores cv) := hnames (Slot.tie T) (by rw [hg]; exact List.mem_cons_self)
+        simp only at h
+        split at h
+        · rename_i hge
+          cases hf : (sortDedup T).foldlM (fun (st : WProfile × Elected) c => do
+              let e1 := bump st.2 (Key.cand c) 1
+              let cv1 ← subtractVotes st.1 c (Score.electedOf e1 c) q
+              pure (cv1, e1)) (cv, el) with
+          | error e' => rw [hf] at h; cases h
+          | ok r =>
+            rw [hf] at h
+            simp only [bind, Except.bind] at h
+            exact ih _ _ _ _ h (elect_members (sortDedup T) cv el rem hinv hge (sortDedup_nodup T)
+              (fun c hc => hin c (hT c (mem_sortDedup.mp hc))) r hf)
+        · rename_i hlt
+          injection h with h
+          subst h
+          right
+          have habs : Key.tie (sortDedup T) ∉ el.map (·.1) := by
+            intro hm
+            obtain ⟨km, hkm, hk⟩ := List.mem_map.mp hm
+            obtain ⟨c, hc, _⟩ := hinv.cands km hkm
+            rw [hc] at hk
+            cases hk
+          refine ⟨el, sortDedup T, rem, ?_, hinv.nodup, hinv.cands, hinv.total, by omega, by omega, ?_⟩
+          · rw [bump_absent habs, Nat.zero_add]
+          · intro c hc
+            exact hin c (hT c (mem_sortDedup.mp hc))
+
+theorem foldlM_error {α β : Type} {f : β → α → Except Err β} {P : Err → Prop}
+    (hf : ∀ b x e, f b x = .error e → P e) : ∀ (l : List α) (b : β) (e : Err), l.foldlM f b = .error e → P e := by
+  intro l
+  induction l with
+  | nil => intro b e h; simp only [List.foldlM_nil, pure, Except.pure] at h; cases h
+  | cons x xs ih =>
+    intro b e h
+    rw [List.foldlM_cons] at h
+    cases hx : f b x with
+    | error e' =>
+      rw [hx] at h
+      simp only [bind, Except.bind] at h
+      injection h with h
+      subst h
+      exact hf b x _ hx
+    | ok b' =>
+      rw [hx] at h
+      simp only [bind, Except.bind] at h
+      exact ih b' e h
+
+theorem getNBest_nil (n : Nat) : getNBest [] n = [] := by
+  rw [getNBest_all [] n (by simp)]; rfl
+
+/-- the exceptions of the allocation loop: `ValueError` (`min()` of nothing in `_find_best_votes`) and `IndexError`
+    (`get_n_best(...)[0]` of an empty table); the model's fuel bound is never hit -/
+theorem allocLoop_error (q : Rat) : ∀ (fuel : Nat) (cv : WProfile) (el : Elected) (rem : Nat) (e : Err),
+    allocLoop q fuel cv el rem = .error e → rem ≤ fuel → e = .valueError ∨ e = .other "IndexError" := by
+  intro fuel
+  induction fuel with
+  | zero =>
+    intro cv el rem e h hle
+    simp only [allocLoop] at h
+    split at h
+    · cases h
+    · omega
+  | succ fuel ih =>
+    intro cv el rem e h hle
+    unfold allocLoop at h
+    split at h
+    · cases h
+    · rename_i hrem
+      split at h
+      · injection h with h; exact Or.inr h.symm
+      · rename_i best rest hg
+        simp only [bind, Except.bind] at h
+        cases hs : subtractVotes cv best (Score.electedOf (bump el (Key.cand best) 1) best) q with
+        | error e' =>
+          rw [hs] at h
+          injection h with h
+          subst h
+          exact Or.inl (subtractVotes_error hs)
+        | ok cv1 =>
+          rw [hs] at h
+          exact ih _ _ _ _ h (by omega)
+      · rename_i T rest hg
+        simp only at h
+        split at h
+        · rename_i hge
+          cases hf : (sortDedup T).foldlM (fun (st : WProfile × Elected) c => do
+              let e1 := bump st.2 (Key.cand c) 1
+              let cv1 ← subtractVotes st.1 c (Score.electedOf e1 c) q
+              pure (cv1, e1)) (cv, el) with
+          | error e' =>
+            rw [hf] at h
+            simp only [bind, Except.bind] at h
+            injection h with h
+            subst h
+            left
+            refine foldlM_error (P := fun e => e = Err.valueError) ?_ _ _ _ hf
+            intro b x e hb
+            simp only [bind, Except.bind] at hb
+            cases hs : subtractVotes b.1 x (Score.electedOf (bump b.2 (Key.cand x) 1) x) q with
+            | error e'' =>
+              rw [hs] at hb
+              injection hb with hb
+              subst hb
+              exact subtractVotes_error hs
+            | ok cv1 => rw [hs] at hb; cases hb
+          | ok r =>
+            rw [hf] at h
+            simp only [bind, Except.bind] at h
+            apply ih _ _ _ _ h
+            -- a tie object has members
+            have hne : sumScores cv ≠ [] := by
+              intro h0
+              rw [h0, getNBest_nil] at hg
+              cases hg
+            have hshape := getNBest_shape (sumScores cv) (sumScores_keys cv).1 1 (le_refl 1)
+              (List.length_pos_iff.mpr hne)
+            have hmem : Slot.tie T ∈ getNBest (sumScores cv) 1 := by rw [hg]; exact List.mem_cons_self
+            have hbig := hshape.tie_big T hmem
+            have hpos : 0 < T.length := by omega
+            obtain ⟨c, hc⟩ := List.exists_mem_of_length_pos hpos
+            have : 0 < (sortDedup T).length := List.length_pos_of_mem (mem_sortDedup.mpr hc)
+            omega
+        · cases h
+
+/-- **Allocated score refusals (partial)**: `AllocatedScoreSelector.evaluate` raises no declared refusal; the only
+    exceptions it can raise (any quota function, any profile) are the two open findings `ValueError` and `IndexError`
+    (`allocated_refusals_witness`).
+    Full statement (FALSE): `… → e = .votingSystemError ∨ e = .notImplemented`. -/
+theorem allocated_refusals_partial (quota : Rat → Nat → Rat) (votes : SProfile) (n : Nat) (e : Err)
+    (h : allocatedSelector quota votes n = .error e) : e = .valueError ∨ e = .other "IndexError" := by
+  unfold allocatedSelector at h
+  simp only [bind, Except.bind] at h
+  split at h
+  · rename_i e' he
+    injection h with h
+    subst h
+    exact allocLoop_error _ _ _ _ _ _ he (le_refl n)
+  · cases h
+
+/-- the two open findings, on real profiles with `1 ≤ n ≤ #candidates graded` -/
+theorem allocated_refusals_witness :
+    (PosCounts [([(0, 5)], 2), ([(1, 3)], 1)] ∧ 2 ≤ (scoreCands [([(0, 5)], 2), ([(1, 3)], 1)]).length ∧
+      allocatedSelector Gen.Quota.hare [([(0, 5)], 2), ([(1, 3)], 1)] 2 = .error .valueError) ∧
+    (PosCounts [([(1, 2)], 2), ([(0, 4), (1, 3)], 1)] ∧ 2 ≤ (scoreCands [([(1, 2)], 2), ([(0, 4), (1, 3)], 1)]).length ∧
+      allocatedSelector Gen.Quota.droop [([(1, 2)], 2), ([(0, 4), (1, 3)], 1)] 2 = .error (.other "IndexError")) :=
+  ⟨⟨by decide +kernel, by decide +kernel, C12.allocated_empty_ballot_witness⟩,
+   ⟨by decide +kernel, by decide +kernel, C12.allocated_ballots_run_out_witness⟩⟩
+
+/-! ### Allocated score: shape -/
+
+/-- a key of the distributor's result as a place of a selection -/
+def keySlot : Key → Slot
+  | .cand c => Slot.cand c
+  | .tie T => Slot.tie T
+
+theorem elected_cands {S : List Cand} : ∀ (el : Elected), (∀ km ∈ el, ∃ c, km = (Key.cand c, 1) ∧ c ∈ S) →
+    ∃ cs : List Cand, el.map (·.1) = cs.map Key.cand ∧ (∀ c ∈ cs, c ∈ S) ∧ cs.length = el.length := by
+  intro el
+  induction el with
+  | nil => intro _; exact ⟨[], rfl, by simp, rfl⟩
+  | cons km rest ih =>
+    intro h
+    obtain ⟨cs, h1, h2, h3⟩ := ih (fun x hx => h x (List.mem_cons_of_mem _ hx))
+    obtain ⟨c, hc, hcS⟩ := h km List.mem_cons_self
+    refine ⟨c :: cs, by simp [hc, h1], ?_, by simp [h3]⟩
+    intro d hd
+    rcases List.mem_cons.mp hd with rfl | hd
+    · exact hcS
+    · exact h2 d hd
+
+theorem selShape_nil (cands : List Cand) : SelShape cands 0 [] :=
+  ⟨rfl, by simp, by simp, by simp [electedOf], by simp, by simp⟩
+
+/-- **Allocated score shape (partial).**  Whenever `AllocatedScoreSelector.evaluate(votes, n)` returns, the list has the
+    selection shape for its own length `j ≤ n` (distinct graded candidates, possibly followed by one tie of graded
+    candidates not elected), and `j = n` — unless the last entry is a tie contesting `n - j + 1 ≥ 2` seats, which the
+    selector reports ONCE (it returns the keys of the distributor's dict): the list is then shorter than `n`.
+    Full statement (FALSE, `allocated_shape_witness`): `SelShape (scoreCands votes) n (ks.map keySlot)`. -/
+theorem allocated_shape_partial (quota : Rat → Nat → Rat) (votes : SProfile) (n : Nat) (ks : List Key)
+    (h : allocatedSelector quota votes n = .ok ks) :
+    ∃ j, j ≤ n ∧ SelShape (scoreCands votes) j (ks.map keySlot) ∧
+      (j = n ∨ ∃ T, (ks.map keySlot).getLast? = some (Slot.tie T) ∧ 2 ≤ n - j + 1 ∧ n - j + 1 < T.length) := by
+  unfold allocatedSelector at h
+  simp only [bind, Except.bind] at h
+  split at h
+  · cases h
+  · rename_i e he
+    simp only [pure, Except.pure] at h
+    injection h with h
+    subst h
+    have hinit : AInv (scoreCands votes) n (votes.map (fun bn => (bn.1, ((bn.2 : Int) : Rat)))) [] n := by
+      refine ⟨by simp, by simp, by simp, ?_⟩
+      intro bw hbw p hp
+      obtain ⟨bn, hbn, rfl⟩ := List.mem_map.mp hbw
+      exact ⟨mem_scoreCands.mpr ⟨bn, hbn, p, hp, rfl⟩, by simp⟩
+    rcases allocLoop_out _ _ _ _ _ _ he hinit with ⟨hnd, hc, hl⟩ | ⟨el, T, rem, he', hnd, hc, htot, hr1, hrT, hT⟩
+    · obtain ⟨cs, h1, h2, h3⟩ := elected_cands e hc
+      refine ⟨n, le_refl n, ?_, Or.inl rfl⟩
+      rw [h1, List.map_map]
+      have hcsnd : cs.Nodup := by
+        rw [h1] at hnd
+        exact List.Nodup.of_map _ hnd
+      have := SelShape.prepend (cands := scoreCands votes) (w := cs) (selShape_nil []) (by simp) h2 hcsnd (by simp)
+      rw [List.append_nil, Nat.add_zero, h3, hl] at this
+      exact this
+    · obtain ⟨cs, h1, h2, h3⟩ := elected_cands el hc
+      have hcsnd : cs.Nodup := by
+        rw [h1] at hnd
+        exact List.Nodup.of_map _ hnd
+      have hB : SelShape T 1 [Slot.tie T] := by
+        refine ⟨rfl, by simp, ?_, by simp [electedOf], ?_, by simp⟩
+        · intro T' hT' c hc'
+          simp only [List.mem_singleton] at hT'
+          injection hT' with hT'
+          subst hT'
+          exact hc'
+        · intro T' hT'
+          simp only [List.mem_singleton] at hT'
+          injection hT' with hT'
+          subst hT'
+          simp
+          omega
+      have hslots : (e.map (·.1)).map keySlot = cs.map Slot.cand ++ [Slot.tie T] := by
+        rw [he', List.map_append, h1, List.map_append, List.map_map]
+        rfl
+      rw [hslots]
+      refine ⟨cs.length + 1, by omega, ?_, ?_⟩
+      · exact SelShape.prepend (cands := scoreCands votes) (w := cs) hB (fun c hc' => (hT c hc').1) h2 hcsnd
+          (fun c hc' hcw => (hT c hc').2 (by rw [h1]; exact List.mem_map.mpr ⟨c, hcw, rfl⟩))
+      · by_cases hr : rem = 1
+        · left; omega
+        · right
+          refine ⟨T, by simp, by omega, ?_⟩
+          have : n - (cs.length + 1) + 1 = rem := by omega
+          rw [this]
+          exact hrT
+
+/-- three candidates tied for two seats: the selector returns ONE entry (`[Tie{0,1,2}]`) — not two places; and a leader
+    followed by a three-way tie for two seats: two entries for three seats -/
+theorem allocated_shape_witness :
+    allocatedSelector Gen.Quota.hare [([(0, 5), (1, 5), (2, 5)], 3)] 2 = .ok [Key.tie [0, 1, 2]] ∧
+    allocatedSelector Gen.Quota.hare [([(0, 5), (1, 3), (2, 3), (3, 3)], 3)] 3 = .ok [Key.cand 0, Key.tie [1, 2, 3]] := by
+  constructor <;> decide +kernel
+
+/-- non-vacuity: a full run -/
+example : allocatedSelector Gen.Quota.hare [([(0, 5), (1, 2), (2, 1)], 2), ([(0, 1), (1, 3), (2, 0)], 2)] 3
+    = .ok [Key.cand 0, Key.cand 1, Key.cand 2] := by decide +kernel
 
 end VL.C08
